@@ -29,7 +29,9 @@ def crypt_config(password="pw-verif-0123456789", salt="salt-verif-0123456789"):
 
 
 def op_conf(jwt_access=False, jwt_refresh=False, oidc=True, endpoints=None, add_ons=None, extra=None,
-            pinned=True, token_endpoint_authn=None, authz=None, lifetimes=None):
+            pinned=True, token_endpoint_authn=None, authz=None, lifetimes=None, alias_kwargs=False):
+    """alias_kwargs: the handler slots that have the same kind of handler reference ONE kwargs dict (what a shared
+    constant in a Python configuration, or a YAML anchor, produces) instead of equal copies"""
     cc = crypt_config() if pinned else copy.deepcopy(CRYPT_CONFIG)
     lt = {"code": 600, "token": 3600, "refresh": 86400}
     lt.update(lifetimes or {})
@@ -43,6 +45,16 @@ def op_conf(jwt_access=False, jwt_refresh=False, oidc=True, endpoints=None, add_
                "kwargs": {"lifetime": lt["refresh"], "aud": ["https://example.org/appl"]}}
     else:
         ref = {"lifetime": lt["refresh"], "kwargs": {"crypt_conf": copy.deepcopy(cc)}}
+    code_kwargs = {"crypt_conf": copy.deepcopy(cc)}
+    if alias_kwargs:
+        if jwt_access and jwt_refresh:
+            ref["kwargs"] = tok["kwargs"]
+            tok["lifetime"], ref["lifetime"] = lt["token"], lt["refresh"]
+            tok["kwargs"].pop("lifetime", None)
+        if not jwt_access:
+            tok["kwargs"] = code_kwargs
+        if not jwt_refresh:
+            ref["kwargs"] = code_kwargs
     if oidc:
         from idpyoidc.server.oidc.authorization import Authorization
         from idpyoidc.server.oidc.token import Token
@@ -96,7 +108,7 @@ def op_conf(jwt_access=False, jwt_refresh=False, oidc=True, endpoints=None, add_
         "template_dir": "template",
         "session_params": {"encrypter": copy.deepcopy(cc)},
         "token_handler_args": {
-            "code": {"lifetime": lt["code"], "kwargs": {"crypt_conf": copy.deepcopy(cc)}},
+            "code": {"lifetime": lt["code"], "kwargs": code_kwargs},
             "token": tok,
             "refresh": ref,
             "id_token": {"class": "idpyoidc.server.token.id_token.IDToken", "kwargs": {}},
